@@ -90,12 +90,15 @@ ASSUMPTIONS = [
 
 
 def replay(chk, data):
-    res = chk.run_cases('scen_log', [data['case']], sched=False, per_case_timeout=200.0)
-    case, r = res[0]
-    hits = [m for m in r['monitors'] if m['prop'] == chk.prop]
-    print(json.dumps(dict(monitors=r['monitors'], handled=len(r.get('handled') or []), expected=len(scen_log.expected(case)),
-                          joined=r.get('joined'), at_join=r.get('at_join')), default=str)[:2000])
-    if hits:
-        print(f'VIOLATION property={chk.prop} replay=(replayed)')
-        return 1
+    """the OS schedule is not controlled: a timing-dependent failure may need several attempts"""
+    for attempt in range(1, 6):
+        res = chk.run_cases('scen_log', [data['case']], sched=False, per_case_timeout=3600.0)
+        case, r = res[0]
+        hits = [m for m in r['monitors'] if m['prop'] == chk.prop]
+        print(json.dumps(dict(attempt=attempt, monitors=r['monitors'], handled=len(r.get('handled') or []),
+                              expected=len(scen_log.expected(case)), joined=r.get('joined'), at_join=r.get('at_join')),
+                         default=str)[:2000])
+        if hits:
+            print(f'VIOLATION property={chk.prop} replay=(replayed)')
+            return 1
     return 0
